@@ -1,22 +1,34 @@
 /-
-  C06 — the signature gate covers ALL eleven transaction types.
+  C06 — the signature gate and the eleven transaction types: WHAT IS COMPUTED WHERE.
 
   `LemoModel.GateFacts.rows` is the committed table of the go/ast extraction (harness/hx/c06_gate.go, re-extracted from the
-  current source on every run and compared row by row by the driver).  From it LEAN computes the interprocedural reading:
-  `safe f` = f is only entered from call sites that a passed gate dominates (directly or through safe callers).
+  current source on every run and compared row by row by the driver).  The INTRAPROCEDURAL half — "this call is dominated
+  by a gate call that returned nil", the walker `block` of c06_gate.go — is computed by that Go extractor and arrives here
+  as the Bool `dom` of a row: it is TRUSTED, not proved.  LEAN computes only the INTERPROCEDURAL closure over those Bools:
+  `safe f` = f has ≥ 1 call site and every site is `dom` or stands in a safe function (fuel 6, least fixed point: call
+  cycles count as unsafe).  Sound FOR THE ROWS GIVEN.  All eleven `typeDominated` verdicts reduce to ONE row,
+  `("site","applyTx","-","handleTx",true)`.
 
-  * `gate_table_complete`  — every one of the eleven types has its handler row in `handleTx`, and that row is effectively
-      dominated by `verifyTransactionSigs`; so are buyGas's and refundGas's state changes and every other non-pure call
-      of the tx path; the only calls NOT behind the gate are the listed block-level ones (`GateFacts.blockLevel`);
-      `applyTx` is entered from Process / ApplyTxs / RunBoxTxs only and starts with the guard on VerifyTxBeforeApply,
-      which has the guard on verifyTransactionSigs; no goto; no other file of the package calls the gated internals
-      (such a call is a `site file:<name>` row that nothing dominates: `safe` / `sitesOf "applyTx"` would change).
-  * `applyAny` — applyTx for an ARBITRARY per-type handler (EVM call / creation, asset kinds, … : any function of the
-      state), reading the TABLE: a type whose handler row is not dominated runs WITHOUT the check.
-  * `every_type_effect_implies_authorised` — with the committed table, for all eleven types and all handlers: a tx has an
-      effect only if `Ledger.verifySigs` passed in its pre-state; composed with `plain_authorised` / `multisig_authorised`
-      / `payer_authorised` (`every_type_effect_authorised_plain`, `…_multisig`).
-  * `ungated_row_refutes` — the table is load-bearing: with one handler row not dominated the statement is false.
+  * `gate_table_complete`  — THE registered fact about the committed table (by `decide`, ON PURPOSE: it pins the committed
+      table, which the driver compares with a per-run extraction): every one of the eleven types has its handler row in
+      `handleTx`, and that row is effectively dominated by `verifyTransactionSigs`; so are buyGas's and refundGas's state
+      changes and every other non-pure call of the tx path; the only calls NOT behind the gate are the listed block-level
+      ones (`GateFacts.blockLevel`); `applyTx` is entered from Process / ApplyTxs / RunBoxTxs only and starts with the guard
+      on VerifyTxBeforeApply, which has the guard on verifyTransactionSigs; no goto; no other file of the package calls the
+      seven listed internals (such a call is a `site file:<name>` row that nothing dominates).
+  * `applyWith dominated H …` — a 12-line HAND-WRITTEN shape of applyTx for an ARBITRARY per-type handler: a type for which
+      `dominated ty = false` runs WITHOUT the check.  `ty` is a free parameter: it is linked neither to `tx.txType` nor to
+      `tx.kind`.  "Effect" is DEFINED as the result `.ok`; that an `.error` leaves no effect in the code (the miner's
+      RevertToSnapshot, the validator's abort) is ASSUMED here — and the rows cannot see that branch either.
+  * `every_type_effect_implies_authorised` — a COROLLARY, near-definitional: the table enters only as the constant `true`
+      (after `rw [typeDominated_all ty]` it reads "a function that returns `.error` whenever `verifySigs ≠ none` returned
+      `.ok`").  "For all eleven types" adds nothing beyond `gate_table_complete.1`.  The content of
+      `every_type_effect_authorised_plain` / `…_multisig` is the composition with the weight-check theorems of C06.lean
+      (`plain_authorised` / `multisig_authorised` / `payer_authorised`).
+  * `ungated_row_refutes` — NOT a statement about the table: `dom` is a free lambda (`fun t => t != .createContract`), neither
+      `rows` nor `typeDominated` occurs in it.  It shows that `applyWith` DEPENDS on its `dominated` argument (the `if`),
+      i.e. that the corollary above is not vacuous in that argument.  Not registered.  (A table-level version — flip the
+      `handleTx` site row to false and recompute `typeDominated` — needs `sitesOf` / `safe` parametrised by a row list.)
 -/
 import LemoProofs.C06
 import LemoModel.GateFacts
@@ -65,8 +77,9 @@ def applyWith (dominated : TxType → Bool) (H : Handlers) (dedup : Bool) (ty : 
 /-- the code's `applyTx` according to the COMMITTED table -/
 def applyAny := applyWith typeDominated
 
-/-- **every_type_effect_implies_authorised**: for every tx type (EVM and asset kinds included) and whatever its handler
-    does, a transaction has an effect only if `verifyTransactionSigs` passed in its pre-state. -/
+/-- **every_type_effect_implies_authorised** (corollary of `gate_table_complete.1` about the hand-written `applyWith`): for
+    every `ty` and whatever the handlers do, `applyAny … = .ok _` only if `verifySigs` passed in the pre-state.  The table
+    enters as the constant `typeDominated ty = true`; `ty` is not linked to the tx; "effect" = `.ok` by definition. -/
 theorem every_type_effect_implies_authorised (H : Handlers) (dedup : Bool) (ty : TxType) (s s' : St) (tx : Tx)
     (h : applyAny H dedup ty s tx = .ok s') : verifySigs dedup s tx = none := by
   unfold applyAny applyWith at h
@@ -97,8 +110,8 @@ theorem every_type_effect_authorised_multisig (H : Handlers) (ty : TxType) (s s'
   exact ⟨LemoProofs.C06.multisig_authorised _ _ _ hm (LemoProofs.C06.sender_checked true s tx hv),
          fun hp => (LemoProofs.C06.payer_authorised true s tx hv hp).1⟩
 
-/-- the table is load-bearing: if ONE handler row were not dominated (here: contract creation), an unsigned tx of that
-    type would have an effect -/
+/-- `applyWith` depends on its `dominated` argument: with a predicate that is false for ONE type (here: contract creation;
+    a free lambda, NOT derived from `rows`) an unsigned tx of that type gets `.ok`.  This says nothing about the table. -/
 theorem ungated_row_refutes :
     let dom : TxType → Bool := fun t => t != .createContract
     let H : Handlers := { pre := fun _ _ => none, buyGas := fun s _ => .ok s, run := fun _ s _ => .ok s, refundGas := fun s _ => s }
